@@ -171,13 +171,40 @@ func checkC16(c C16Case, o *Obs) error {
 		return nil
 	}
 	classifyC16(c, o)
-	starts, ends := slices.Clone(c.Starts), slices.Clone(c.Ends)
+	// The arguments are windows of one buffer of the caller: starts, then ends, then other data
+	// of the caller (every second case; otherwise slices without spare capacity). NewIndex must
+	// not write to any of it.
+	n := len(c.Starts)
+	arenaC16 := make([]int, 0, 3*n+4)
+	arenaC16 = append(append(arenaC16, c.Starts...), c.Ends...)
+	for i := 0; i < n+4; i++ {
+		arenaC16 = append(arenaC16, -7000-i)
+	}
+	arenaCopy := slices.Clone(arenaC16)
+	starts, ends := arenaC16[:n], arenaC16[n:2*n]
+	if (n+len(c.Queries))%2 == 0 {
+		starts, ends = slices.Clone(c.Starts), slices.Clone(c.Ends)
+	}
 	var idx *regions.Index
 	if p := catch(func() { idx = regions.NewIndex(starts, ends) }); p != nil {
 		return fmt.Errorf("NewIndex(%v,%v) panicked: %v", c.Starts, c.Ends, p)
 	}
 	if !slices.Equal(starts, c.Starts) || !slices.Equal(ends, c.Ends) {
-		return fmt.Errorf("NewIndex modified its arguments")
+		return fmt.Errorf("NewIndex modified its arguments: starts %v -> %v, ends %v -> %v", c.Starts, starts, c.Ends, ends)
+	}
+	if !slices.Equal(arenaC16, arenaCopy) {
+		return fmt.Errorf("NewIndex wrote to the caller's memory behind its arguments (starts and ends were windows of one buffer): %v became %v", arenaCopy, arenaC16)
+	}
+	// An index is a value of its own: building another index (other intervals, same number of
+	// them) afterwards does not change its answers.
+	{
+		os, oe := make([]int, n), make([]int, n)
+		for i := range os {
+			os[i], oe[i] = c.Ends[n-1-i]-3, c.Starts[n-1-i]+5
+		}
+		if p := catch(func() { regions.NewIndex(os, oe) }); p != nil {
+			return fmt.Errorf("NewIndex(%v,%v) panicked: %v", os, oe, p)
+		}
 	}
 	qs := queryPoints(c)
 	o.Count("queries", 2*len(qs))
